@@ -1,5 +1,6 @@
 /- C19 line-protocol driver: prints `model <TAB> spec` for each case line.
    ops (see checks/props/c19.py for the grammar):
+     ext   it= pat=[..] ext=[..] ctor=dyn|all            (extents only: extent, rank, fwd/rev products)
      map   lay=left|right|stride|tleft|tright it=<i8..u64> pat=[..] ext=[..] ctor=dyn|all [str=[..] perm=[..]]
      conv  it= sit= pat=[..] spat=[..] ext=[..]
      stride_members it= pat=[..] ext=[..] str=[..]
@@ -133,6 +134,22 @@ def step (_ : Unit) (l : Line) : Unit × String :=
         | _, _ => bad
       | _ => bad
     | _, _, _, _, _ => bad
+  | "ext" =>
+    match (l.str? "it").bind parseIt, l.list? "pat", l.natList? "ext", l.str? "ctor" with
+    | some t, some p, some vals, some ctor =>
+      let pat := parsePat p
+      if pat.length ≠ vals.length then bad else
+      let rank := pat.length
+      let m : Except Err String := do
+        let e ← Ext.ofVals t pat (ctorVals pat (intsOf vals) (ctor == "all"))
+        let exts ← (List.range rank).mapM (e.extent t)
+        let fwd ← (List.range (rank + 1)).mapM (e.fwdProd t)
+        let rev ← (List.range rank).mapM (e.revProd t)
+        pure s!"ext={fmtList exts} rk={rank}/{rankDynamic pat} se={fmtList p} fwd={fmtList fwd} rev={fmtList rev}"
+      let sfwd := (List.range (rank + 1)).map (Spec.strideLeft vals)
+      let srev := (List.range rank).map (Spec.strideRight vals)
+      out (fmtE m) s!"ext={fmtNatList vals} rk={rank}/{rankDynamic pat} se={fmtList p} fwd={fmtNatList sfwd} rev={fmtNatList srev}"
+    | _, _, _, _ => bad
   | "conv" =>
     match (l.str? "it").bind parseIt, (l.str? "sit").bind parseIt, l.list? "pat", l.list? "spat", l.natList? "ext" with
     | some t, some ts, some p, some sp, some vals =>
